@@ -40,7 +40,7 @@ def table_summaries():
     def supports(ex, st, fn, argv):
         a, b = deref(ex, st, argv[0]), deref(ex, st, argv[1])
         return [(st, Bool(Supports(a.s, b.s)))]
-    S.append((r'^BTreeMap::<String, AMQPValue>::new$', t_new))
+    S.append((r'^BTreeMap::<String, AMQPValue>::new$|^<BTreeMap<String, AMQPValue> as Default>::default$', t_new))
     S.append((r'^BTreeMap::<String, AMQPValue>::insert$', t_insert))
     S.append((r'server_supports$', supports))
     return S
